@@ -432,7 +432,13 @@ func (p *Path) rangeNext(it *IterV, in *ssa.Next) Value {
 	mt := it.M
 	if mt == nil || it.Pos >= len(it.Order) {
 		tt := in.Type().(*types.Tuple)
-		return TupleV{tc.False, p.zero(tt.At(1).Type()), p.zero(tt.At(2).Type())}
+		zk := func(t types.Type) Value {
+			if b, ok := t.(*types.Basic); ok && b.Kind() == types.Invalid {
+				return nil // blank identifier in the range clause
+			}
+			return p.zero(t)
+		}
+		return TupleV{tc.False, zk(tt.At(1).Type()), zk(tt.At(2).Type())}
 	}
 	e := mt.Entries[it.Order[it.Pos]]
 	it.Pos++
